@@ -211,7 +211,7 @@ theorem stepOnce2_inv (r : Rem) (hr : r.wf) (tail : Bytes) (m cap : Nat) (hw : r
       r'.winOk (m - n) ∧ (more = false → r'.atRest) ∧
       (more = true → 0 < n ∨ (r.state = .ending ∧ r'.state = .trailer)) ∧
       out <+: r.curChunk ∧ (r'.state = .size ∨ r.curChunk = out ++ r'.curChunk) ∧ (more = true → r'.state ≠ .size) ∧
-      (r.enc.length ≤ m → 1 ≤ cap → r.state ≠ .ended → 0 < n ∨ (more = true ∧ r'.state = .trailer)) := by
+      (r.enc.length ≤ m → (1 ≤ cap ∨ r.payload = []) → r.state ≠ .ended → 0 < n ∨ (more = true ∧ r'.state = .trailer)) := by
   cases r with
   | done =>
     refine ⟨false, .done, 0, [], ?_⟩
@@ -261,6 +261,10 @@ theorem stepOnce2_inv (r : Rem) (hr : r.wf) (tail : Bytes) (m cap : Nat) (hw : r
       · intro _; left; omega
       · right; rw [hn]; simp [Rem.curChunk]
       · intro h1 h2 _; left
+        have h2 : 1 ≤ cap := by
+          rcases h2 with h2 | h2
+          · exact h2
+          · simp [Rem.payload] at h2; rw [h2.1] at hd; simp at hd
         have hwl2 : w.length = min m ((d ++ ([CR, LF] ++ encTail cs last trs)) ++ tail).length := by simp [w]
         simp [Rem.enc] at h1
         simp at hwl2
@@ -274,6 +278,10 @@ theorem stepOnce2_inv (r : Rem) (hr : r.wf) (tail : Bytes) (m cap : Nat) (hw : r
       · intro h; left; simpa using h
       · right; simp [Rem.curChunk]
       · intro h1 h2 _; left
+        have h2 : 1 ≤ cap := by
+          rcases h2 with h2 | h2
+          · exact h2
+          · simp [Rem.payload] at h2; rw [h2.1] at hd; simp at hd
         have hwl2 : w.length = min m ((d ++ ([CR, LF] ++ encTail cs last trs)) ++ tail).length := by simp [w]
         simp [Rem.enc] at h1
         simp at hwl2
@@ -404,7 +412,7 @@ theorem parseInputS_inv (fuel : Nat) : ∀ (r : Rem), r.wf → ∀ (tail : Bytes
       r'.wf ∧ n ≤ m ∧ out.length ≤ cap ∧ r.enc.drop n = r'.enc ∧ n ≤ r.enc.length ∧
       r.payload = out ++ r'.payload ∧ r'.atRest ∧
       out <+: r.curChunk ∧ (r'.state = .size ∨ r.curChunk = out ++ r'.curChunk) ∧
-      (r.enc.length ≤ m → 1 ≤ cap → r.state ≠ .ended → 0 < n) := by
+      (r.enc.length ≤ m → (1 ≤ cap ∨ r.payload = []) → r.state ≠ .ended → 0 < n) := by
   induction fuel with
   | zero =>
     intro r hr tail m cap _ hf
@@ -454,7 +462,8 @@ theorem parseInputS_inv (fuel : Nat) : ∀ (r : Rem), r.wf → ∀ (tail : Bytes
               · rw [htr] at hh; simp at hh
               · have := hck1; cases r <;> simp_all [Rem.curChunk, Rem.state]
             have he1 : r1.enc = r.enc := by rw [← hd1, hz]; simp
-            have := hk3 (by rw [he1, hz]; simpa using h1) (by rw [ho]; simpa using h2) (by rw [htr]; simp)
+            have hp1' : r.payload = r1.payload := by rw [hp1, ho]; simp
+            have := hk3 (by rw [he1, hz]; simpa using h1) (by rw [ho, ← hp1']; simpa using h2) (by rw [htr]; simp)
             omega
           · omega
 
@@ -474,7 +483,7 @@ theorem readChunkedS_inv (fuel : Nat) : ∀ (r : Rem), r.wf → r.atRest → ∀
       readChunkedS fuel r.state ((r.enc ++ tail).take m) cap stop = (r'.state, .ok (n, out)) ∧
       r'.wf ∧ r'.atRest ∧ n ≤ m ∧ out.length ≤ cap ∧ r.enc.drop n = r'.enc ∧ n ≤ r.enc.length ∧
       r.payload = out ++ r'.payload ∧ (stop = true → out <+: r.curChunk) ∧
-      (r.enc.length ≤ m → 1 ≤ cap → r.state ≠ .ended → 0 < n) := by
+      (r.enc.length ≤ m → (1 ≤ cap ∨ r.payload = []) → r.state ≠ .ended → 0 < n) := by
   induction fuel with
   | zero => intro r _ _ tail m cap stop _ hf; omega
   | succ fuel ih =>
